@@ -3,6 +3,7 @@ C09 — `DocChecker.Check`: the early-exit trigram count decides "more than `max
 quirk (`cur[0] == 0`) skips exactly the two incomplete windows.
 -/
 import ZoektModel.C09.Final
+import ZoektModel.C09.CheckerState
 namespace ZoektModel.C09
 open ZoektModel
 
@@ -188,5 +189,50 @@ theorem docCheck_spec (content : Bytes) (max : Nat) (allow : Bool) (u : List Nat
       cases hd : distinctCount (windows ((decodeAll content).map (·.r))) [] max with
       | none => exact absurd (this.1 hd) hgt
       | some _ => rfl
+
+/-! ### one checker, many documents -/
+
+theorem scan_over_iff (l : List Nat) (max : Nat) : ∀ seen, (scan l seen max).2 = true ↔ distinctCount l seen max = none := by
+  induction l with
+  | nil => intro seen; simp [scan, distinctCount]
+  | cons g r ih =>
+    intro seen
+    simp only [scan, distinctCount]
+    generalize (if seen.contains g then seen else g :: seen) = s'
+    by_cases hgt : s'.length > max
+    · simp [hgt]
+    · simp only [hgt, if_false]
+      exact ih s'
+
+theorem checkSt_result (st : List Nat) (content : Bytes) (max : Nat) (allow : Bool) :
+    (checkSt st content max allow).2 = docCheck content max allow := by
+  unfold checkSt docCheck
+  split
+  · rfl
+  split
+  · rfl
+  split
+  · rfl
+  split
+  · rfl
+  · simp only
+    have h := scan_over_iff (checkGrams (0 :: 0 :: (decodeAll content).map (·.r))) max []
+    cases hd : distinctCount (checkGrams (0 :: 0 :: (decodeAll content).map (·.r))) [] max with
+    | none => rw [h.2 hd]; rfl
+    | some v =>
+      have : (scan (checkGrams (0 :: 0 :: (decodeAll content).map (·.r))) [] max).2 = false := by
+        cases hs : (scan (checkGrams (0 :: 0 :: (decodeAll content).map (·.r))) [] max).2 with
+        | false => rfl
+        | true => rw [h.1 hs] at hd; cases hd
+      rw [this]; rfl
+
+theorem checkSeq_stateless (docs : List (Bytes × Nat × Bool)) : ∀ st : List Nat,
+    checkSeq st docs = docs.map fun d => docCheck d.1 d.2.1 d.2.2 := by
+  induction docs with
+  | nil => intro st; rfl
+  | cons d r ih =>
+    intro st
+    obtain ⟨c, m, a⟩ := d
+    simp only [checkSeq, List.map_cons, checkSt_result, ih]
 
 end ZoektModel.C09
